@@ -29,6 +29,9 @@ type SessCfg struct {
 	NoErrH  bool   `json:"neh,omitempty"`
 	SkA     int    `json:"ska,omitempty"` // this many of A's first D-H public values are a byte shorter than usual
 	SkB     int    `json:"skb,omitempty"`
+	// where the peer is the reference implementation: freedoms the specification leaves to the sender
+	RPad int `json:"rpad,omitempty"` // > 0: every record block starts with a padding record of RPad-1 bytes
+	RKid int `json:"rkid,omitempty"` // > 0: serial number of the reference's first D-H key (libotr and otr3 use 1)
 }
 
 func (c SessCfg) pol() int {
@@ -89,6 +92,10 @@ func genSessCfg(t *rapid.T) SessCfg {
 	c.Starter = rapid.IntRange(0, 1).Draw(t, "starter")
 	if rapid.IntRange(0, 3).Draw(t, "shortkeys") == 0 {
 		c.SkA, c.SkB = rapid.IntRange(0, 3).Draw(t, "ska"), rapid.IntRange(0, 3).Draw(t, "skb")
+	}
+	if rapid.IntRange(0, 3).Draw(t, "reffreedom") == 0 {
+		c.RPad = rapid.IntRange(0, 6).Draw(t, "rpad")
+		c.RKid = rapid.SampledFrom([]int{0, 2, 3, 100, 70000}).Draw(t, "rkid")
 	}
 	return c
 }
